@@ -252,6 +252,30 @@ def rand_ops(rng, cells, depth=0, maxlen=8):
     return ops
 
 
+def equal_up_to_copy(cells, a, b, depth):
+    """abstract values a (model) and b (observed) are equal when every existing list / dict / tuple cell
+    a refers to is read as its contents and compared with the new container b shows in its place"""
+    if depth > 6:
+        return False
+    if a == b:
+        return True
+    if isinstance(a, dict) and a.get('k') == 'ref' and isinstance(b, dict) and b.get('k') == 'new':
+        cell = cells[a['a'] - 1]
+        if cell['cls'] != b.get('cls') or cell['cls'] not in ('list', 'dict', 'tuple') or len(cell['items']) != len(b['items']):
+            return False
+        if cell['cls'] == 'dict':
+            return all(equal_up_to_copy(cells, k1, k2, depth + 1) and equal_up_to_copy(cells, v1, v2, depth + 1)
+                       for (k1, v1), (k2, v2) in zip(cell['items'], b['items']))
+        return all(equal_up_to_copy(cells, x, y, depth + 1) for x, y in zip(cell['items'], b['items']))
+    if isinstance(a, dict) and isinstance(b, dict) and a.get('k') == 'new' and b.get('k') == 'new' and a.get('cls') == b.get('cls') \
+            and len(a['items']) == len(b['items']):
+        if a['cls'] == 'dict':
+            return all(equal_up_to_copy(cells, k1, k2, depth + 1) and equal_up_to_copy(cells, v1, v2, depth + 1)
+                       for (k1, v1), (k2, v2) in zip(a['items'], b['items']))
+        return all(equal_up_to_copy(cells, x, y, depth + 1) for x, y in zip(a['items'], b['items']))
+    return False
+
+
 def record(check, n, seed):
     rng = random.Random(seed)
     cells = heap0_cells()
@@ -281,6 +305,15 @@ def record(check, n, seed):
             check.validated(1)
             print('MODEL-GAP property=C02 %s on %s: glom agrees with plain Python, the specification says otherwise (clause %s)'
                   % (row['text'], row['root'], rej['clause']))
+            continue
+        # what a call returns is compared by value where it flowed through a call argument: glom hands the
+        # callee a rebuilt (equal) copy of a list / dict an argument spec evaluates to -- the property speaks
+        # about what the chain yields, not about the identity of argument containers (counted, not an alarm)
+        pv = (rej.get('pred') or {}).get('v')
+        if rej['clause'] == 'value' and has_op(row['ops'], '(') and pv is not None and row['obs']['ok'] \
+                and equal_up_to_copy(cells, pv, row['obs']['v'], 0):
+            check.extra['call_argument_copies'] = check.extra.get('call_argument_copies', 0) + 1
+            check.validated(1)
             continue
         check.violation(dict(row=row, clause=rej['clause'], predicted=rej.get('pred')),
                         'recorded execution rejected by the specification (clause %s): %s on root %s observed %s'
@@ -318,6 +351,9 @@ def main(tier, seed):
     check.assumptions += ['integer results beyond 1e5, float arithmetic other than exact + - *, string formatting/repetition, '
                           'dict/set algebra and bool arithmetic are outside the model (skipped, counted)',
                           'exceptions raised by called user functions keep their class (C04) and are not PathAccessErrors',
+                          'a list / dict that a call ARGUMENT spec evaluates to reaches the callee as an equal rebuilt copy (arguments '
+                          'pass through the argument mode twice): results of recorded rows are compared by value there (counted as '
+                          'call_argument_copies); the identity of argument containers is not part of the statement',
                           'TLC, the Json community module and the codec are trusted; a second oracle (plain Python '
                           'application of the same operations) cross-checks the model on every enumerated case']
     return check.finish(rule='TLC explores every successful prefix x every operation of the alphabet (and one operation '
